@@ -51,6 +51,7 @@ type Defects struct {
 	NullObjZero      bool // F28: null for required nullable object runs validators on zero struct
 	MaxZeroIgnored   bool // maxLength/maxItems/minimum-style zero sentinel (not representable: harness never states 0)
 	AddPropObjLax    bool // additionalProperties with object/array schema: values are not validated
+	AllOfFirstWins   bool // allOf members are merged; for a keyword stated by several members the first one counts
 	UntypedCompDef   bool // a definition that is only allOf/anyOf (no type) whose members do not all state one type is interface{}
 	NamedNullZero    bool // null at a defaulted property that refers to a validated named scalar: the zero value is validated
 	Uint8ArrayBase64 bool // --min-sized-ints: an array of integers within 0..255 is a []byte and accepts base64 strings
@@ -171,8 +172,13 @@ func (c *evalCtx) eval(s *sg.Schema, v any, path string, pos ctxPos) {
 		}
 	}
 
-	for _, b := range s.AllOf {
-		c.eval(b, v, path, ctxPos{})
+	if c.d.AllOfFirstWins && len(s.AllOf) > 1 {
+		// defect model: the members are merged keyword by keyword, the first member that states a keyword wins
+		c.eval(mergeFirstWins(s.AllOf, 0), v, path, ctxPos{})
+	} else {
+		for _, b := range s.AllOf {
+			c.eval(b, v, path, ctxPos{})
+		}
 	}
 	if len(s.AnyOf) > 0 {
 		c.evalAnyOf(s, v, path)
@@ -307,6 +313,97 @@ func untypedMixedComposition(t *sg.Schema) bool {
 		return false
 	}
 	return len(t.AnyOf) > 0 || len(t.AllOf) > 0
+}
+
+// mergeFirstWins builds the schema the tool's allOf merge yields: scalar keywords from the first member that states
+// them, required lists concatenated, properties merged by name (recursively), references looked through.
+func mergeFirstWins(members []*sg.Schema, depth int) *sg.Schema {
+	out := &sg.Schema{}
+	for _, m := range members {
+		m = m.Resolve()
+		if m == nil || depth > 20 {
+			continue
+		}
+		if len(m.AllOf) > 0 {
+			m = mergeFirstWins(append([]*sg.Schema{shallowWithoutAllOf(m)}, m.AllOf...), depth+1)
+		}
+		if len(out.Types) == 0 {
+			out.Types = m.Types
+		}
+		if out.Min == nil {
+			out.Min = m.Min
+		}
+		if out.Max == nil {
+			out.Max = m.Max
+		}
+		if out.ExMin == nil {
+			out.ExMin = m.ExMin
+		}
+		if out.ExMax == nil {
+			out.ExMax = m.ExMax
+		}
+		if out.MultipleOf == nil {
+			out.MultipleOf = m.MultipleOf
+		}
+		if out.MinLen == 0 {
+			out.MinLen = m.MinLen
+		}
+		if out.MaxLen == 0 {
+			out.MaxLen = m.MaxLen
+		}
+		if out.MinItems == 0 {
+			out.MinItems = m.MinItems
+		}
+		if out.MaxItems == 0 {
+			out.MaxItems = m.MaxItems
+		}
+		if out.Pattern == "" {
+			out.Pattern = m.Pattern
+		}
+		if out.Format == "" {
+			out.Format = m.Format
+		}
+		if m.HasEnum {
+			out.HasEnum = true
+			out.Enum = append(out.Enum, m.Enum...)
+		}
+		if !out.HasDefault && m.HasDefault {
+			out.HasDefault, out.Default = true, m.Default
+		}
+		out.Required = append(out.Required, m.Required...)
+		if out.AddProps == nil && out.AddPropsBool == nil {
+			out.AddProps, out.AddPropsBool = m.AddProps, m.AddPropsBool
+		}
+		if m.Items != nil {
+			if out.Items == nil {
+				out.Items = m.Items
+			} else {
+				out.Items = mergeFirstWins([]*sg.Schema{out.Items, m.Items}, depth+1)
+			}
+		}
+		if len(m.AnyOf) > 0 && len(out.AnyOf) == 0 {
+			out.AnyOf = m.AnyOf
+		}
+		for _, p := range m.Props {
+			found := false
+			for i := range out.Props {
+				if out.Props[i].Name == p.Name {
+					out.Props[i].S = mergeFirstWins([]*sg.Schema{out.Props[i].S, p.S}, depth+1)
+					found = true
+				}
+			}
+			if !found {
+				out.Props = append(out.Props, sg.Prop{Name: p.Name, S: p.S})
+			}
+		}
+	}
+	return out
+}
+
+func shallowWithoutAllOf(m *sg.Schema) *sg.Schema {
+	c := *m
+	c.AllOf = nil
+	return &c
 }
 
 func hasTypeSpecificKeywords(s *sg.Schema) bool {
